@@ -1,5 +1,6 @@
 mod common;
 mod c06;
+mod c10;
 mod c12;
 mod c13;
 mod c14;
@@ -7,6 +8,7 @@ mod c15;
 mod c17;
 mod c18;
 mod sched;
+mod store;
 mod http;
 mod c20;
 
@@ -61,6 +63,7 @@ fn main() {
     }));
     let rep = match prop.as_str() {
         "c06" => c06::run(&opts),
+        "c10" => c10::run(&opts),
         "c12" => c12::run(&opts),
         "c13" => c13::run(&opts),
         "c14" => c14::run(&opts),
